@@ -59,12 +59,18 @@ def write_cfg(ctx, name, text):
 
 def gen(ctx, module, const_tpl, params, depth, simulate=None, timeout=600, tag="", cap=None):
     """Run the behaviour generator; returns the list of (distinct) behaviours."""
+    # the design invariants are checked along the generated behaviours too (larger constants than the exhaustive runs)
+    inv = ("INVARIANTS JobConservation ConfirmedOnce NoFailure Bindings SubFlows\n" if module == "Gen_WP" else
+           "INVARIANTS InFlightIsNext Watermarks NoFailure ConfirmedOnce DemandRespected BufferInWindow\n")
     cfg = ("SPECIFICATION GSpec\nCONSTANTS\n" + const_tpl % P(params) + "  Depth = %d\n  Dice = %d\nCONSTRAINT Emit\n"
-           % (depth, 3 if simulate else 1))
+           % (depth, 3 if simulate else 1)) + inv
     name = "%s_%s.cfg" % (module, tag)
     path = write_cfg(ctx, name, cfg)
     r = ctx.tlc(SPEC, name, module=module, simulate=simulate, depth=(depth + 5 if simulate else None), deadlock_check=False,
                 timeout=timeout, workers=4, files={name: path}, name="%s-%s" % (module, tag), heap="4g")
+    if r.violated and r.violated != "deadlock":
+        raise vlib.Infra("design-level check failed while generating behaviours (%s, %s): %s violated\n%s"
+                         % (module, tag, r.violated, r.counterexample()[:3000]))
     out, seen = [], set()
     for b in vlib.parse_sim_behaviours(r.out):
         key = json.dumps([[s["a"], s.get("w", ""), s["m"]] for s in b], sort_keys=True)
@@ -155,7 +161,7 @@ def nontrivial(b):
 def design_p2p(ctx, pid):
     quick = ctx.quick
     out = {}
-    mc = dict(W=2, N=2, F=1, TP=0, TC=1, TG=0, Orders='{"pc", "cp"}') if quick else dict(W=2, N=3, F=2, TP=1, TC=2, TG=1, Orders='{"pc", "cp"}')
+    mc = dict(W=2, N=2, F=1, TP=0, TC=1, TG=0, Orders='{"pc", "cp"}') if quick else dict(W=2, N=3, F=1, TP=0, TC=1, TG=1, Orders='{"pc", "cp"}')
     props = ("VIEW View\nINVARIANTS InFlightIsNext Watermarks NoFailure ConfirmedOnce DemandRespected BufferInWindow\n"
              "PROPERTIES DeliveryOrder ConfirmStepwise EmitUnderDemand NeverBufFull\n")
     cfg = "SPECIFICATION Spec\nCONSTANTS\n" + P2P_CONST % P(mc) + props
@@ -196,14 +202,14 @@ def design_p2p(ctx, pid):
 def design_wp(ctx, pid):
     quick = ctx.quick
     out = {}
-    mc = dict(W=1, N=2, F=1, TP=0, TC=1, TG=0, Initial="Init1", Leavers='{"w1"}') if quick else dict(W=2, N=3, F=1, TP=0, TC=1, TG=0, Initial="Init2", Leavers='{"w1"}')
+    mc = dict(W=1, N=2, F=1, TP=0, TC=1, TG=0, Initial="Init1", Leavers='{"w1"}') if quick else dict(W=2, N=2, F=1, TP=0, TC=1, TG=0, Initial="Init1", Leavers='{"w1"}')
     cfg = ("SPECIFICATION Spec\nCONSTANTS\n" + WP_CONST % dict(Workers=W2, **mc) + "VIEW View\n"
            "INVARIANTS JobConservation ConfirmedOnce NoFailure Bindings SubFlows\nPROPERTIES NeverIllegal DeliveryOrder\n")
     r = ctx.tlc_must_hold(SPEC, "MC_WP_run.cfg", module="MC_WorkPull", deadlock_check=False, timeout=2400, workers=4 if quick else 8,
                           files={"MC_WP_run.cfg": write_cfg(ctx, "MC_WP_run.cfg", cfg)}, name="mc-wp", heap="12g")
     out["mc"] = dict(constants=mc, distinct=r.distinct, generated=r.generated, depth=r.depth)
     ctx.log("design WorkPull: %d distinct states, all invariants hold" % r.distinct)
-    lv = dict(W=1, N=2, F=1, TP=1000, TC=1000, TG=1000, Initial="Init1", Leavers='{"w1"}') if quick else dict(W=2, N=2, F=1, TP=1000, TC=1000, TG=1000, Initial="Init2", Leavers='{"w1"}')
+    lv = dict(W=1, N=2, F=1, TP=1000, TC=1000, TG=1000, Initial="Init1", Leavers='{"w1"}') if quick else dict(W=2, N=2, F=1, TP=1000, TC=1000, TG=1000, Initial="Init1", Leavers='{"w1"}')
     cfg = ("SPECIFICATION LiveSpec\nCONSTANTS\n" + (WP_CONST % dict(Workers=W2, **lv)).replace("QuietTicks = FALSE", "QuietTicks = TRUE") +
            "VIEW LiveView\nINVARIANTS JobConservation NoFailure\nPROPERTIES EventuallyAllDone\n")
     r = ctx.tlc_must_hold(SPEC, "Live_WP_run.cfg", module="MC_WorkPull", deadlock_check=False, timeout=2400, workers=4,
